@@ -234,6 +234,7 @@ impl<T: Copy> InPort for SIn<T> {
 /// Packet input port.
 pub struct PIn<T> {
     w: Option<NCWriteStream<Vec<T>>>,
+    probe: rustradio::stream::NCStreamProbe<Vec<T>>,
     data: Vec<Vec<T>>,
     pos: usize,
     id: usize,
@@ -243,9 +244,11 @@ pub fn pin<T: 'static>(data: Vec<Vec<T>>) -> (Box<PIn<T>>, NCReadStream<Vec<T>>)
     use rustradio::stream::StreamWait;
     let (w, r) = new_nocopy_stream::<Vec<T>>();
     let id = w.verif_id();
+    let probe = w.verif_nc_probe();
     (
         Box::new(PIn {
             w: Some(w),
+            probe,
             data,
             pos: 0,
             id,
@@ -274,7 +277,8 @@ impl<T: Clone> InPort for PIn<T> {
         usize::MAX / 2
     }
     fn backlog(&self) -> usize {
-        self.w.as_ref().map(|w| w.verif_len()).unwrap_or(0)
+        // Also after the write end is gone: what was pushed stays queued.
+        self.probe.len().unwrap_or(0)
     }
     fn capacity(&self) -> usize {
         usize::MAX / 2
@@ -710,8 +714,30 @@ fn apply(inst: &mut Instance, a: Act, last: Option<&Verdict>) {
     }
 }
 
-fn step(inst: &mut Instance, a: Act, last: Option<&Verdict>) -> StepObs {
+/// The multithreaded runner sits in `stream.wait(need)` between two calls:
+/// if, after what the environment just did, the stream the block named has
+/// ended holding less than it asked for, the wait says "never" and the block
+/// is retired without another call.
+fn retired_in_wait(inst: &Instance, last: Option<&Verdict>) -> bool {
+    if let Some(Verdict::WaitStream { id, need, .. }) = last {
+        for p in &inst.ins {
+            if p.id() == *id && p.closed() && p.backlog() < *need {
+                return true;
+            }
+        }
+    }
+    false
+}
+
+fn step(inst: &mut Instance, a: Act, last: Option<&Verdict>) -> Option<StepObs> {
     apply(inst, a, last);
+    if retired_in_wait(inst, last) {
+        return None;
+    }
+    Some(step_call(inst, a))
+}
+
+fn step_call(inst: &mut Instance, a: Act) -> StepObs {
     let ins_before: Vec<usize> = inst.ins.iter().map(|p| p.backlog()).collect();
     let outs_before: Vec<usize> = inst.outs.iter().map(|p| p.free()).collect();
     let a0 = verif::activity();
@@ -764,7 +790,10 @@ pub fn execute(mut inst: Instance, acts: &[Act], flush: bool) -> Exec {
     let mut ended = false;
     for a in acts {
         let last = steps.last().map(|s: &StepObs| s.verdict.clone());
-        let s = step(&mut inst, *a, last.as_ref());
+        let Some(s) = step(&mut inst, *a, last.as_ref()) else {
+            ended = true;
+            break;
+        };
         let bad = matches!(s.verdict, Verdict::Panic(_) | Verdict::Err(_));
         let eof = matches!(s.verdict, Verdict::Eof) || runner_retires(&inst, &s);
         steps.push(s);
@@ -784,7 +813,11 @@ pub fn execute(mut inst: Instance, acts: &[Act], flush: bool) -> Exec {
     // shows it here.
     if ok && !ended && flush {
         for _ in 0..2 {
-            let s = step(&mut inst, Act::Nop, None);
+            let last = steps.last().map(|s: &StepObs| s.verdict.clone());
+            let Some(s) = step(&mut inst, Act::Nop, last.as_ref()) else {
+                ended = true;
+                break;
+            };
             let bad = matches!(s.verdict, Verdict::Panic(_) | Verdict::Err(_));
             let eof = matches!(s.verdict, Verdict::Eof) || runner_retires(&inst, &s);
             steps.push(s);
@@ -822,7 +855,11 @@ pub fn execute(mut inst: Instance, acts: &[Act], flush: bool) -> Exec {
                     p.close();
                 }
             }
-            let s = step(&mut inst, Act::Flush, None);
+            let last = steps.last().map(|s: &StepObs| s.verdict.clone());
+            let Some(s) = step(&mut inst, Act::Flush, last.as_ref()) else {
+                completed = true;
+                break;
+            };
             let act = s.activity;
             let v = s.verdict.clone();
             let retired = runner_retires(&inst, &s);
